@@ -38,15 +38,19 @@ impl<KT: DbMapKeyType> FileDbXxxInner<KT> {
         ks_name: &str,
         params: FileDbParams,
     ) -> Result<FileDbXxxInner<KT>> {
-        let key_file = key::KeyFile::open_with_params(&path, ks_name, KT::signature(), &params)?;
-        let val_file = val::ValueFile::open_with_params(&path, ks_name, KT::signature(), &params)?;
-        let htx_file = htx::HtxFile::open_with_params(&path, ks_name, KT::signature(), &params)?;
+        let (key_file, key_is_new) =
+            key::KeyFile::open_with_params(&path, ks_name, KT::signature(), &params)?;
+        let (val_file, val_is_new) =
+            val::ValueFile::open_with_params(&path, ks_name, KT::signature(), &params)?;
+        let (htx_file, htx_is_new) =
+            htx::HtxFile::open_with_params(&path, ks_name, KT::signature(), &params)?;
         //
         Ok(Self {
             key_file,
             val_file,
             htx_file,
-            dirty: false,
+            // the headers of newly created files are only in the buffers yet.
+            dirty: key_is_new || val_is_new || htx_is_new,
             _phantom: std::marker::PhantomData,
         })
     }
@@ -245,6 +249,7 @@ impl<KT: DbMapKeyType> DbXxxObjectSafe<KT> for FileDbXxxInner<KT> {
     fn put_kt(&mut self, key_kt: &KT, value: &[u8]) -> Result<()> {
         let hash = HashValue::new(key_kt.hash_value());
         let opt = self.find_in_hash_buckets_kt(hash, key_kt)?;
+        self.dirty = true;
         if let Some((key_offset, _prev_key_offset)) = opt {
             let new_key_offset = self.store_value_on_insert(key_offset, value)?;
             if key_offset != new_key_offset {
@@ -269,6 +274,7 @@ impl<KT: DbMapKeyType> DbXxxObjectSafe<KT> for FileDbXxxInner<KT> {
         let hash = HashValue::new(key_kt.hash_value());
         let opt = self.find_in_hash_buckets_kt(hash, key_kt)?;
         if let Some((key_offset, _prev_key_offset)) = opt {
+            self.dirty = true;
             let key_piece = self.key_file.read_piece(key_offset)?;
             let value = self
                 .val_file
